@@ -750,6 +750,14 @@ pub fn run(job: &Job) -> RunResult {
         _ => run_wasm(job, &mut res),
     }
     res.steps = res.counters.get("evaluations").copied().unwrap_or(0);
+    if job.prop == "C10" {
+        // under C10 only the closed-world oracle speaks; the API oracles belong to C14/C16
+        res.violations.clear();
+        if matches!(res.verdict, crate::job::Verdict::Violation(_)) {
+            res.verdict = crate::job::Verdict::Ok;
+        }
+    }
+    crate::seam::library_closed_world_check(job, &mut res);
     res.log_hash = res.signature ^ fnv1a(format!("{:?}{:?}", res.counters, res.violations.len()).as_bytes());
     if job.want_trace || !res.violations.is_empty() {
         res.trace = res.sample.clone().map(|mut s| {
